@@ -62,9 +62,10 @@ func vHasDotDotName(nodes []vNode) bool {
 // VerifC07_RoundTrip: zip a tree with the real Zip, unzip it with the real Unzip.
 func VerifC07_RoundTrip() {
 	rec, fs := vNewFs()
-	names := []string{"a", "b c", ".hidden", "a..b", "$x;"}
+	// "d.gz": a file or a directory that merely carries an archive extension (the default limits expand nested archives)
+	names := []string{"a", "b c", ".hidden", "a..b", "$x;", "d.gz"}
 	if verif.Tier() == 0 {
-		names = []string{"a", ".h", "a..b"}
+		names = []string{"a", ".h", "a..b", "d.gz"}
 	}
 	vGenNamedTree(fs, "/src", names)
 	// stamp a modification time the archive format can hold (2 s precision)
@@ -76,7 +77,14 @@ func VerifC07_RoundTrip() {
 	ctx := context.Background()
 	verif.Assert("zip_succeeds", fs.ZipWithContext(ctx, "/src", "/a.zip") == nil)
 	verif.Assert("source_untouched_by_zip", vSameTree(src, vSnapshot(rec.inner, "/src")))
-	list, err := fs.UnzipWithContext(ctx, "/a.zip", "/out")
+	var list []string
+	var err error
+	if verif.Bool("recursiveLimits") {
+		// "with and without limits": the default limits also look for nested archives by extension
+		list, err = fs.UnzipWithContextAndLimits(ctx, "/a.zip", "/out", DefaultLimits())
+	} else {
+		list, err = fs.UnzipWithContext(ctx, "/a.zip", "/out")
+	}
 	dotdot := vHasDotDotName(src)
 	verif.AssertKnown("unzip_of_own_archive_succeeds", err == nil, "KF-C07-dotdot-name-not-extractable", dotdot)
 	if err != nil {
